@@ -209,11 +209,21 @@ class FilterExprPredicate:
     def eval(self, route):
         val = route.attrs.get(self.lhs, None)
         if self.op == '=':
-            return val == self.rhs
+            return self._equal(val, self.rhs)
         elif self.op == '!=':
-            return val != self.rhs
+            return not self._equal(val, self.rhs)
         else:
             assert False
+
+    @staticmethod
+    def _equal(val, literal):
+        # In Python True == 1 and False == 0: keep booleans and numbers apart.
+        if isinstance(val, bool) != isinstance(literal, bool):
+            return False
+        # Bytes attributes are written as quoted strings in a filter.
+        if isinstance(val, bytes) and isinstance(literal, str):
+            return val == literal.encode('utf-8')
+        return val == literal
 
     def __repr__(self):
         return 'EvalPred({!r}, {!r}, {!r})'.format(self.op, self.lhs, self.rhs)
